@@ -479,6 +479,7 @@ class Evaluator:
         self.opaque = set(opaque or ())   # qualnames never inlined
         self.effects: List[Tuple[Term, ast.AST, Term]] = []  # (path condition, statement, rendered) for Expr statements
         self.inlined: List[str] = []
+        self.lambdas: Dict[str, Tuple[ast.Lambda, Dict[str, Term], "Frame"]] = {}
 
     # -- typing -----------------------------------------------------------------------
     def set_type(self, t: Term, c: Optional[ClassInfo]):
@@ -856,7 +857,10 @@ class Evaluator:
                     parts.append(self.expr(v.value, fr))
             return ("fstr", tuple(parts))
         if isinstance(e, ast.Lambda):
-            return ("lambda", ast.unparse(e))
+            key = ast.unparse(e)
+            # keep the closure: a lambda handed to a helper is applied there with the names it captured here
+            self.lambdas[key] = (e, dict(fr.env), fr)
+            return ("lambda", key)
         if isinstance(e, (ast.ListComp, ast.GeneratorExp, ast.SetComp)):
             return self.comprehension(e, fr)
         if isinstance(e, ast.DictComp):
@@ -893,11 +897,31 @@ class Evaluator:
             ec = self.elem_type(it)
             if ec is not None and isinstance(g.target, ast.Name):
                 self.set_type(bound, ec)
-            conds = tuple(self.truthy(self.expr(c, inner)) for c in g.ifs)
+            conds = []
+            for c in g.ifs:
+                # conjuncts are evaluated left to right; an isinstance() that holds narrows the element type for what follows
+                parts = c.values if isinstance(c, ast.BoolOp) and isinstance(c.op, ast.And) else [c]
+                vals = []
+                for part in parts:
+                    v = self.truthy(self.expr(part, inner))
+                    self.narrow(v)
+                    vals.append(v)
+                conds.append(t_and(*vals) if len(vals) > 1 else vals[0])
+            conds = tuple(conds)
             gens.append((it, conds))
         elt = self.expr(e.elt, inner)
         kind = {ast.ListComp: "list", ast.GeneratorExp: "gen", ast.SetComp: "set"}[type(e)]
         return ("comp", kind, elt, tuple(gens))
+
+    def narrow(self, c: Term):
+        """isinstance(x, T) taken as true narrows the static type of x to T (only ever to a subclass)."""
+        parts = c[1] if c[0] == "and" else (c,)
+        for a in parts:
+            if a[0] == "isinstance" and isinstance(a[2], str):
+                T = self.model.maybe_cls(a[2])
+                cur = self.type_of(a[1])
+                if T is not None and (cur is None or T.is_subclass_of(cur)):
+                    self.set_type(a[1], T)
 
     def bind_target(self, target: ast.expr, v: Term, fr: Frame):
         if isinstance(target, ast.Name):
@@ -1017,6 +1041,15 @@ class Evaluator:
                 kwargs.append(("**", self.expr(kw.value, fr)))
             else:
                 kwargs.append((kw.arg, self.expr(kw.value, fr)))
+        if isinstance(e.func, ast.Name) and fr.env.get(e.func.id, ("?",))[0] == "lambda" and fr.env[e.func.id][1] in self.lambdas \
+                and not kwargs and not any(a[0] == "star" for a in args):
+            node, cenv, cfr = self.lambdas[fr.env[e.func.id][1]]
+            la = node.args
+            names = [a.arg for a in la.posonlyargs + la.args]
+            if len(names) == len(args) and not la.vararg and not la.kwarg and not la.kwonlyargs and fr.depth < self.max_depth:
+                env2 = dict(cenv)
+                env2.update(dict(zip(names, args)))
+                return self.expr(node.body, Frame(cfr.fn, cfr.module, env2, cfr.self_cls, fr.depth + 1))
         fname = dotted(e.func)
         # builtins ----------------------------------------------------------------------
         if isinstance(e.func, ast.Name) and e.func.id not in fr.env:
